@@ -1,0 +1,97 @@
+//go:build verif
+
+// Machine-checked contracts for the non-graphics built-in functions (builtin.go), one per
+// function, with the postcondition transcribed from docs/builtins.md. Comment-only file read by
+// /verif/bin/evyvc (see /verif/DESIGN.md).
+
+package evaluator
+
+// The parser checks arity and argument types of every call to a built-in (assertArgTypes); the
+// preconditions below are what that check establishes.
+//@ pure strArg(args []value, i int) bool = i < len(args) && is(args[i], *stringVal) && ref(args[i]) != 0
+//@ pure numArg(args []value, i int) bool = i < len(args) && is(args[i], *numVal) && ref(args[i]) != 0
+
+//@ func upperFunc(_ *scope, args []value) (r value, err error)
+//@   props C13
+//@   requires strArg(args, 0)
+//@   ensures[C13 upper] err == nil && is(r, *stringVal) && fresh(r) && r.(*stringVal).V == strings.ToUpper(args[0].(*stringVal).V)
+//@   modifies nothing
+
+//@ func lowerFunc(_ *scope, args []value) (r value, err error)
+//@   props C13
+//@   requires strArg(args, 0)
+//@   ensures[C13 lower] err == nil && is(r, *stringVal) && fresh(r) && r.(*stringVal).V == strings.ToLower(args[0].(*stringVal).V)
+//@   modifies nothing
+
+//@ func indexFunc(_ *scope, args []value) (r value, err error)
+//@   props C13
+//@   requires strArg(args, 0) && strArg(args, 1)
+//@   ensures[C13 index] err == nil && is(r, *numVal) && fresh(r) && same(r.(*numVal).V, float(strings.Index(args[0].(*stringVal).V, args[1].(*stringVal).V)))
+//@   modifies nothing
+
+//@ func startswithFunc(_ *scope, args []value) (r value, err error)
+//@   props C13
+//@   requires strArg(args, 0) && strArg(args, 1)
+//@   ensures[C13 startswith] err == nil && is(r, *boolVal) && fresh(r) && r.(*boolVal).V == strings.HasPrefix(args[0].(*stringVal).V, args[1].(*stringVal).V)
+//@   modifies nothing
+
+//@ func endswithFunc(_ *scope, args []value) (r value, err error)
+//@   props C13
+//@   requires strArg(args, 0) && strArg(args, 1)
+//@   ensures[C13 endswith] err == nil && is(r, *boolVal) && fresh(r) && r.(*boolVal).V == strings.HasSuffix(args[0].(*stringVal).V, args[1].(*stringVal).V)
+//@   modifies nothing
+
+//@ func trimFunc(_ *scope, args []value) (r value, err error)
+//@   props C13
+//@   requires strArg(args, 0) && strArg(args, 1)
+//@   ensures[C13 trim] err == nil && is(r, *stringVal) && fresh(r) && r.(*stringVal).V == strings.Trim(args[0].(*stringVal).V, args[1].(*stringVal).V)
+//@   modifies nothing
+
+//@ func replaceFunc(_ *scope, args []value) (r value, err error)
+//@   props C13
+//@   requires strArg(args, 0) && strArg(args, 1) && strArg(args, 2)
+//@   ensures[C13 replace] err == nil && is(r, *stringVal) && fresh(r) && r.(*stringVal).V == strings.ReplaceAll(args[0].(*stringVal).V, args[1].(*stringVal).V, args[2].(*stringVal).V)
+//@   modifies nothing
+
+//@ func hasFunc(_ *scope, args []value) (r value, err error)
+//@   props C13 C12
+//@   requires len(args) >= 2 && is(args[0], *mapVal) && ref(args[0]) != 0 && strArg(args, 1)
+//@   ensures[C12 C13 has] err == nil && is(r, *boolVal) && fresh(r) && r.(*boolVal).V == has(args[0].(*mapVal).Pairs, args[1].(*stringVal).V)
+//@   modifies nothing
+
+//@ func delFunc(_ *scope, args []value) (r value, err error)
+//@   props C13 C12
+//@   requires len(args) >= 2 && is(args[0], *mapVal) && ref(args[0]) != 0 && strArg(args, 1) && wfMap(args[0].(*mapVal))
+//@   ensures[C12 C13 del] err == nil && is(r, *noneVal) && !has(args[0].(*mapVal).Pairs, args[1].(*stringVal).V) && wfMapA(args[0].(*mapVal))
+//@   ensures[C12 C13 del-others] forall(k, string, k != args[1].(*stringVal).V ==> has(args[0].(*mapVal).Pairs, k) == old(has(args[0].(*mapVal).Pairs, k)))
+//@   modifies *args[0].(*mapVal).Order, (*args[0].(*mapVal).Order)[*], args[0].(*mapVal).Pairs[*]
+
+//@ func lenFunc(_ *scope, args []value) (r value, err error)
+//@   props C13 C12 C11
+//@   requires len(args) >= 1 && is(args[0], *anyVal) && ref(args[0]) != 0 && okValue(args[0])
+//@   let a = args[0].(*anyVal).V
+//@   ensures[C13 len-string] is(a, *stringVal) ==> err == nil && is(r, *numVal) && same(r.(*numVal).V, float(rlen(a.(*stringVal).V)))
+//@   ensures[C13 len-array] is(a, *arrayVal) ==> err == nil && is(r, *numVal) && same(r.(*numVal).V, float(len(*a.(*arrayVal).Elements)))
+//@   ensures[C13 C12 len-map] is(a, *mapVal) ==> err == nil && is(r, *numVal) && same(r.(*numVal).V, float(len(a.(*mapVal).Pairs)))
+//@   ensures[C13 len-other] !is(a, *stringVal) && !is(a, *arrayVal) && !is(a, *mapVal) ==> r == nil && wraps(err, ErrBadArguments)
+//@   modifies class evaluator.stringVal.runeSlice
+
+//@ func exitFunc(_ *scope, args []value) (r value, err error)
+//@   props C13
+//@   requires numArg(args, 0)
+//@   ensures[C13 exit] r == nil && is(err, ExitError)
+//@   modifies nothing
+
+//@ func panicFunc(_ *scope, args []value) (r value, err error)
+//@   props C13
+//@   requires strArg(args, 0)
+//@   ensures[C13 panic] r == nil && is(err, PanicError) && err.(PanicError) == args[0].(*stringVal).V
+//@   modifies nothing
+
+//@ func randFunc(_ *scope, args []value) (r value, err error)
+//@   props C13 C02
+//@   requires numArg(args, 0)
+//@   let n = args[0].(*numVal).V
+//@   ensures[C13 rand-domain] !(n >= 1.0 && n <= 2147483647.0) ==> r == nil && wraps(err, ErrBadArguments)
+//@   ensures[C13 rand-range] err == nil ==> is(r, *numVal) && r.(*numVal).V >= 0.0 && r.(*numVal).V < n
+//@   modifies everything
